@@ -22,7 +22,9 @@ RULE = ("(a) create_from_info(get_info(M)) for DictArithmetic and the ten model 
         "methods incl. all add_constraint_* and operators) evaluated at the outermost call while the generated workloads of "
         "C02-C11, C14-C16 and C18 run underneath. Non-trivial = round trip / aliasing case on a model with >= 2 terms, or a "
         "monitored call that received at least one container argument; distinct = digest of the case")
-TIERS = {"quick": {"shards": 8, "cases": 220}, "thorough": {"shards": 16, "cases": 6000}}
+TIERS = {"quick": {"shards": 8, "cases": 350}, "thorough": {"shards": 16, "cases": 12000}}
+FLOOR_BASE = {"quick": 220, "thorough": 6000}    # case counts the floors below were calibrated for; the launcher scales them
+FLOOR_FIXED = {"monitored-entry-points-hit"}
 UNDER = ["c02", "c03", "c04", "c05", "c06", "c07", "c08", "c09", "c10", "c11", "c14", "c15", "c16", "c18"]
 TYPES = ["DictArithmetic", "QUBO", "PUBO", "PCBO", "QUSO", "PUSO", "PCSO", "QUBOMatrix", "PUBOMatrix", "QUSOMatrix", "PUSOMatrix"]
 
